@@ -123,7 +123,7 @@ func init() {
 
 func init() {
 	Properties["C12"] = PropertySpec{
-		Rules: []string{"R-CONST", "R-LAZY", "R-MIRROR", "R-TWIN", "R-SELFCMP", "R-UNITS", "R-FACEBOUNDS", "R-PADDING", "R-GUARD"},
+		Rules: []string{"R-CONST", "R-LAZY", "R-MIRROR", "R-TWIN", "R-SELFCMP", "R-UNITS", "R-FACEBOUNDS", "R-PADDING", "R-GUARD", "R-UPDATER"},
 		Explanation: "Narrow claim. Of the cell geometry only what is visible in code shape is decided: none of the documented error allowances in cell.go, paddedcell.go, stuv.go and the " +
 			"interior-distance test of edge_distances.go is smaller than its derived value; the lazily computed middle of a padded cell is read only through its accessor; the point-to-cell " +
 			"conversion and Cell.ContainsPoint share one projection kernel; Cell.latitude/longitude and the CellID begin/end functions are mirror images.",
@@ -239,15 +239,15 @@ func init() {
 	}
 	addRules("C01", "R-SAMEFACE")
 	addRules("C02", "R-CONSTREL", "R-SOSDERIVE")
-	addRules("C03", "R-GUARD", "R-VERTEXSYM", "R-CONSTREL", "R-SOS", "R-SOSDERIVE")
+	addRules("C03", "R-GUARD", "R-VERTEXSYM", "R-CONSTREL", "R-SOS", "R-SOSDERIVE", "R-GLOBAL")
 	addRules("C04", "R-MIRROR", "R-CONSTREL", "R-RESET", "R-FLAGS", "R-PARTITION", "R-ALLLOOPS", "R-LOCK", "R-SYNCED")
-	addRules("C05", "R-PADDING", "R-PARITY", "R-FRESHRET", "R-RANGE", "R-PARTITION")
+	addRules("C05", "R-PADDING", "R-PARITY", "R-FRESHRET", "R-RANGE", "R-PARTITION", "R-ACCUM")
 	addRules("C06", "R-GUARD", "R-NOALIAS", "R-CLIPENDS", "R-RESET", "R-ALLLOOPS", "R-CONSTREL")
-	addRules("C07", "R-ROLES", "R-PARITY", "R-PARTITION", "R-INIT")
+	addRules("C07", "R-ROLES", "R-PARITY", "R-PARTITION", "R-INIT", "R-GUARD")
 	addRules("C08", "R-CONSTREL", "R-UNITS", "R-UPDATER")
 	addRules("C15", "R-DERIVED", "R-ALLLOOPS", "R-REINIT", "R-FINITE", "R-DECSHAPE", "R-INIT")
 	addRules("C09", "R-GUARD", "R-DECSHAPE", "R-REINIT", "R-RAWFLOAT", "R-GLOBAL", "R-DERIVED", "R-ALLLOOPS", "R-FLAGS", "R-INITORDER", "R-PAIR", "R-WIRECOUNT", "R-FIELDPAIR")
-	addRules("C10", "R-UNITS", "R-SAMEFACE", "R-ROLES", "R-PADDING", "R-CONSTREL", "R-ALLLOOPS", "R-ACCUM", "R-FACEBOUNDS", "R-INITORDER")
+	addRules("C10", "R-PARTITION", "R-UNITS", "R-SAMEFACE", "R-ROLES", "R-PADDING", "R-CONSTREL", "R-ALLLOOPS", "R-ACCUM", "R-FACEBOUNDS", "R-INITORDER")
 	addRules("C13", "R-NOALIAS", "R-REINIT")
 	addRules("C14", "R-IDLE", "R-NOALIAS", "R-OPTS", "R-RESET")
 	addRules("C18", "R-ROLES", "R-PARTITION", "R-ALLLOOPS", "R-STAGES", "R-UNITS")
@@ -308,21 +308,21 @@ func init() {
 	only("C14", map[string][]string{"R-RESET": {"applyUpdatesInternal", "ShapeIndex.Reset"}})
 	only("C15", map[string][]string{"R-ALLLOOPS": {"Polygon.decode"}, "R-INIT": {"ecode"}})
 	only("C16", map[string][]string{"R-CONST": {"intersection", "projection", "robustNormal", "s2.dblError"}})
-	only("C17", map[string][]string{"R-CONST": {"interiorDist", "minUpdate", "ChordAngle).Max", "edge_distances"}, "R-UNITS": {"edge_distances", "UpdateM", "updateEdge", "s2.UpdateMaxDistance"}, "R-CONSTREL": {"Polyline).Project"}})
+	only("C17", map[string][]string{"R-CONST": {"interiorDist", "minUpdate", "ChordAngle).Max", "edge_distances"}, "R-UNITS": {"edge_distances", "UpdateM", "updateEdge", "s2.UpdateMaxDistance", "arc-length-through-chord"}, "R-CONSTREL": {"Polyline).Project"}})
 	only("C20", map[string][]string{"R-CONST": {"Snapper", "Tessellat", "tessellat"}, "R-UNITS": {"chord-length-as-angle", "Polyline", "findEndVertex", "Tessellator", "Projection"}})
-	only("C12", map[string][]string{"R-CONST": {"Cell)", "PaddedCell", "interiorDist", "maxXYZtoUVError", "cellPadding", "stuv", "poleMinLat"}, "R-MIRROR": {"projection"}, "R-UNITS": {"Cell)"}, "R-PADDING": {"Cell).RectBound"}, "R-GUARD": {"Cell.MaxDistanceToEdge"}})
+	only("C12", map[string][]string{"R-CONST": {"Cell)", "PaddedCell", "interiorDist", "maxXYZtoUVError", "cellPadding", "stuv", "poleMinLat"}, "R-MIRROR": {"projection"}, "R-UNITS": {"Cell)"}, "R-PADDING": {"Cell).RectBound"}, "R-GUARD": {"Cell.MaxDistanceToEdge"}, "R-UPDATER": {"(s2.Cell)."}})
 	only("C11", map[string][]string{"R-RANGE": {"CellID)", "CellUnion", "cellunion", "CellIndex", "cellIndex", "s2intersect", "wrap-free"}})
 	predicateConsts := []string{"maxDeterminantError", "detErrorMultiplier", "triage", "stableSign", "cosDistance", "sin2Distance", "s2.dblEpsilon", "s2.dblError", "r1.dblEpsilon", "s1.dblEpsilon"}
 	clipConsts := []string{"edgeClip", "faceClip", "intersectsRect", "cellPadding", "ShapeIndex)", "boundaryApproxIntersects", "ShrinkToFit"}
 	only("C01", map[string][]string{"R-CONST": {"Cell).ContainsPoint", "maxXYZtoUVError"}, "R-RANGE": {"CellID)", "CellUnion", "cellunion"}})
 	only("C02", map[string][]string{"R-CONST": predicateConsts, "R-CONSTREL": {"r3.MaxPrec", "stableSign", "maxDeterminantError"}})
 	only("C03", map[string][]string{"R-CONST": {"EdgeCrosser", "intersection", "projection"}, "R-CONSTREL": {"stableSign", "maxDeterminantError", "r3.MaxPrec"}, "R-STAGES": {"RobustSign", "expensiveSign", "exactSign", "bound:", "symbolicallyPerturbedSign", "stage-callers"}, "R-GUARD": {"VertexCrossing"}})
-	only("C05", map[string][]string{"R-CONST": clipConsts, "R-PADDING": {"boundaryApproxIntersects"}, "R-CYCLE": {"coverer", "CellUnionBound"}, "R-PARITY": {"iteratorContainsPoint"}, "R-RANGE": {"ShapeIndexIterator"}, "R-PARTITION": {"Polygon.Invert"}})
+	only("C05", map[string][]string{"R-CONST": clipConsts, "R-PADDING": {"boundaryApproxIntersects"}, "R-CYCLE": {"coverer", "CellUnionBound"}, "R-PARITY": {"iteratorContainsPoint", "ReferencePoint"}, "R-RANGE": {"ShapeIndexIterator"}, "R-PARTITION": {"Polygon.Invert"}, "R-ACCUM": {"vertex-only-bound"}})
 	only("C06", map[string][]string{"R-CONST": clipConsts})
-	only("C07", map[string][]string{"R-ROLES": {"hasCrossing", "(*s2.Loop).", "initOneLoop"}, "R-PARITY": {"loopCrosser"}, "R-INIT": {"Invert"}})
+	only("C07", map[string][]string{"R-ROLES": {"hasCrossing", "(*s2.Loop).", "initOneLoop"}, "R-PARITY": {"loopCrosser"}, "R-INIT": {"Invert"}, "R-GUARD": {"findVertex"}})
 	only("C08", map[string][]string{"R-CONSTREL": {"findEdgesInternal", "setMaxError", "IsConservative", "initCovering"}, "R-CYCLE": {"EdgeQuery", "CellUnionBound"}})
 	only("C09", map[string][]string{"R-CONST": {"siTitoPiQi"}, "R-SELFCMP": {"scan", "xyzToFaceSiTi", "stuv", "pointcompression", "s2."}, "R-GUARD": {"xyzToFaceSiTi"}, "R-DECSHAPE": {"readfull"}})
-	only("C10", map[string][]string{"R-CONST": {"RectBounder", "ExpandForSubregions", "Cell).RectBound", "Cap).AddCap", "poleMinLat"}, "R-PADDING": {"Cap).RectBound", "Cell).RectBound"}, "R-SAMEFACE": {"exact:"}, "R-UNITS": {"longitude-wrap"}, "R-ROLES": {"initOneLoop"}, "R-CONSTREL": {"ExpandForSubregions", "RectBounder"}})
+	only("C10", map[string][]string{"R-CONST": {"RectBounder", "ExpandForSubregions", "Cell).RectBound", "Cap).AddCap", "poleMinLat"}, "R-PADDING": {"Cap).RectBound", "Cell).RectBound"}, "R-SAMEFACE": {"exact:"}, "R-UNITS": {"longitude-wrap"}, "R-ROLES": {"initOneLoop"}, "R-PARTITION": {"Polygon.Invert"}, "R-CONSTREL": {"ExpandForSubregions", "RectBounder"}})
 	only("C18", map[string][]string{"R-CONST": {"turningAngleMaxError", "PointArea"}, "R-ROLES": {"CanonicalFirstVertex", "initOneLoop"}, "R-STAGES": {"stage-callers"}, "R-UNITS": {"raw-longitude-span"}})
 	only("C19", map[string][]string{"R-ROLES": {"ChordAngle"}})
 	// error budgets of kernels whose own properties (C16, C17, C20) are not claimed are reported where the claimed
